@@ -28,6 +28,7 @@ class Prop:
             "give-up with something queued on a first handshake and on a re-handshake after an earlier session (key aged 181 s and attempt counter preset by hooks in quick, full 20 transmissions in thorough) followed by new traffic, "
             "receive-only (keepalive at 10 s, second data while pending), unanswered send (new handshake at 15 s + jitter; answered => none; answered exchange first, then an unanswered send), "
             "peer created with its persistent keepalive by one UAPI set on a device that is up (vs. configured before Up), "
+            "second episodes on the same peer (second attempt after a give-up must be retransmitted again, second give-up, second handshake answered and used, interval switched off and on again over UAPI), "
             "fresh non-retry initiation while the retransmit timer is pending (lastSentHandshake aged by hook), 2..6 separately staged batches at give-up and at peer stop, "
             "persistent keepalive (1/2/3/.. s, interval restarted by a receive), 1/127/128/129/300/random TUN batches of 1..4 packets staged "
             "before completion in both roles; start offsets, batch sizes and delays from one PRNG; non-trivial = the trace contains at least "
